@@ -61,14 +61,14 @@ def shards(tier):
 def entries_for(plan):
     if plan["ser"] == "compact":
         if plan["b64"] is None:
-            return ["jws.deserialize_compact", "jws.extract+validate", "rfc7797.deserialize_compact", "jwt.decode"]
-        return ["rfc7797.deserialize_compact", "rfc7797.deserialize_compact+payload"]
+            return ["jws.deserialize_compact", "jws.extract+validate", "jws.extract+extract-other+validate", "rfc7797.deserialize_compact", "jwt.decode"]
+        return ["rfc7797.deserialize_compact", "rfc7797.deserialize_compact+payload", "rfc7797.deserialize_compact+otherpayload"]
     if plan["b64"] is None:
         return ["jws.deserialize_json", "rfc7797.deserialize_json"]
     return ["rfc7797.deserialize_json"]
 
 
-def call_entry(entry, token, keyarg, payload_arg=None):
+def call_entry(entry, token, keyarg, payload_arg=None, other_token=None):
     """Returns (payload_bytes_or_claims, protected_headers_list, is_claims)."""
     from joserfc import jws, jwt, rfc7797
     tok = copy.deepcopy(token)
@@ -79,6 +79,18 @@ def call_entry(entry, token, keyarg, payload_arg=None):
         o = jws.extract_compact(tok if isinstance(tok, bytes) else tok.encode())
         if not jws.validate_compact(o, keyarg, algorithms=ALL_JWS):
             raise ValueError("validate_compact returned False")
+        return o.payload, [o.protected], False
+    if entry == "jws.extract+extract-other+validate":
+        # another (valid) token is extracted between extracting and validating the token under test
+        o = jws.extract_compact(tok if isinstance(tok, bytes) else tok.encode())
+        if other_token is not None:
+            jws.extract_compact(other_token if isinstance(other_token, bytes) else other_token.encode())
+        if not jws.validate_compact(o, keyarg, algorithms=ALL_JWS):
+            raise ValueError("validate_compact returned False")
+        return o.payload, [o.protected], False
+    if entry == "rfc7797.deserialize_compact+otherpayload":
+        # the caller hands over a payload that differs from what was signed (and from an embedded one)
+        o = rfc7797.deserialize_compact(tok, keyarg, payload=b"other-" + (payload_arg or b""), algorithms=ALL_JWS)
         return o.payload, [o.protected], False
     if entry == "rfc7797.deserialize_compact":
         o = rfc7797.deserialize_compact(tok, keyarg, algorithms=ALL_JWS)
@@ -111,21 +123,31 @@ def _keyarg(plan, keymode):
     return v
 
 
-def judge(entry, token, plan, keymode, payload_arg=None, none_allowed=False):
+def judge(entry, token, plan, keymode, payload_arg=None, none_allowed=False, other_token=None):
     """None = joserfc rejected (fine for a faulted token). Otherwise (kind, text) of the violation or 'ok'."""
     keyarg, kr = _keyarg(plan, keymode)
     try:
-        got_payload, got_prot, is_claims = call_entry(entry, token, keyarg, payload_arg)
+        got_payload, got_prot, is_claims = call_entry(entry, token, keyarg, payload_arg, other_token)
     except Exception:
         return None
+    if entry.endswith("+otherpayload"):
+        # whatever comes back must be what was signed: the token is judged with the payload that was actually handed over
+        payload_arg = b"other-" + (payload_arg or b"")
     rfc7797 = entry.startswith("rfc7797")
     try:
-        detached = payload_arg if entry.endswith("+payload") else None
+        detached = payload_arg if entry.endswith(("+payload", "+otherpayload")) else None
         if isinstance(token, (str, bytes)):
             try:
-                r = rjws.verify_compact(token, kr, rfc7797=rfc7797, detached_payload=detached)
+                if entry.endswith("+otherpayload"):
+                    # first reading: the token as it stands (the payload argument is irrelevant, e.g. b64=true or an embedded payload)
+                    try:
+                        r = rjws.verify_compact(token, kr, rfc7797=rfc7797)
+                    except rjws.Reject:
+                        r = rjws.verify_compact(token, kr, rfc7797=rfc7797, detached_payload=detached)
+                else:
+                    r = rjws.verify_compact(token, kr, rfc7797=rfc7797, detached_payload=detached)
             except rjws.Reject:
-                if not (detached and entry.endswith("+payload")):
+                if not (detached and entry.endswith(("+payload", "+otherpayload"))):
                     raise
                 # a caller-supplied payload replaces whatever stands in the payload segment: judge the token as detached
                 tb = token if isinstance(token, bytes) else token.encode("utf-8")
@@ -500,7 +522,7 @@ def run_fault(case, mplan, keymode, token, token2, fault, entry):
         p2["members"][i]["key"] = gk.key_to_record(nk)
         return judge(entry, token, p2, keymode, payload)
     if fault["kind"] == "base":
-        return judge(entry, token, mplan, keymode, payload)
+        return judge(entry, token, mplan, keymode, payload, other_token=token2 if isinstance(token2, (str, bytes)) else None)
     ft = apply_fault(token, token2, fault, mplan["b64"] is False)
     if ft is None:
         return "n/a"
@@ -509,7 +531,7 @@ def run_fault(case, mplan, keymode, token, token2, fault, entry):
             ft.decode("utf-8")
         except UnicodeDecodeError:
             pass
-    return judge(entry, ft, mplan, keymode, payload)
+    return judge(entry, ft, mplan, keymode, payload, other_token=token if isinstance(token, (str, bytes)) else None)
 
 
 def run_shard(ctx, spec):
@@ -529,7 +551,8 @@ def run_shard(ctx, spec):
             ctx.dontcare("b64=false non-utf8")
             return
         ents = entries_for(mplan)
-        entry = ents[case["entry"] % len(ents)]
+        fault_ents = [e for e in ents if not e.endswith("+otherpayload")]
+        entry = fault_ents[case["entry"] % len(fault_ents)]
         if entry == "jwt.decode":
             try:
                 if not isinstance(json.loads(pl), dict):
@@ -546,6 +569,11 @@ def run_shard(ctx, spec):
                 continue  # detached: payload must be handed over
             r = run_fault(case, mplan, keymode, token, token2, {"kind": "base"}, e)
             ctx.case(("base", label, e), cls="base:accepted" if r == "ok" else "base:other")
+            if e.endswith("+otherpayload"):
+                # a payload other than the signed one was handed over: refusing is right, returning unsigned content is not
+                if r not in (None, "ok"):
+                    ctx.finding(f"C01:unsigned-external-payload-returned:{mplan['ser']}", r[1], {"case": case, "fault": {"kind": "base"}, "entry": e, "token": token, "token2": token2})
+                continue
             if r is None:
                 if case["minter"] == "joserfc":
                     ctx.finding(f"C01:base-token-rejected:{mplan['ser']}:{e}", f"untouched token minted by joserfc is refused by {e}",
@@ -606,6 +634,8 @@ def replay(rec) -> dict:
         mplan, keymode, token, token2 = mint(case)
     r = run_fault(case, mplan, keymode, token, token2, fault, entry)
     if fault["kind"] == "base":
+        if entry.endswith("+otherpayload"):
+            return {f"C01:unsigned-external-payload-returned:{mplan['ser']}": r[1]} if r not in (None, "ok", "n/a") else {}
         if r is None and case["minter"] == "joserfc":
             return {f"C01:base-token-rejected:{mplan['ser']}:{entry}": "untouched token refused"}
         if r not in (None, "ok", "n/a"):
